@@ -92,16 +92,11 @@ void h_list_free_then_alloc(void) {
 /* the id space: with the last pool rule, the total number of ids is exactly NULL_SLOT (ids 0..NULL_SLOT-1): C19 "at most
  * 2^(8*slot-id-size)-1 slots ... identifiers never wrap". Pure arithmetic over the configuration constants. */
 void h_list_id_space(void) {
-  uint64_t total = (MAXPOOLS - 1) * CFG_CAP + (CFG_CAP - 1);
+  uint64_t total = (MAXPOOLS - 1) * CFG_CAP + pool_cap_limit(MAXPOOLS - 1);
   COVER(1);
 #ifdef CANARY_LIST_IDSPACE
-  CHECK(total < CFG_NULL_SLOT, "id space of maxPools pools does not exceed NULL_SLOT");
+  CHECK(total < CFG_NULL_SLOT, "id space of maxPools pools equals NULL_SLOT (ids 0..NULL_SLOT-1)");
 #else
-  CHECK(total <= CFG_NULL_SLOT, "id space of maxPools pools does not exceed NULL_SLOT");
+  CHECK(total == CFG_NULL_SLOT, "id space of maxPools pools equals NULL_SLOT (ids 0..NULL_SLOT-1)");
 #endif
-  /* capacity doubling from the initial table reaches maxPools exactly (otherwise `capacity_ == maxPools` never stops it) */
-  uint64_t c = CFG_INITIAL;
-  _Bool hits = 0;
-  for (int i = 0; i < 40; i++) { if (c == MAXPOOLS) hits = 1; if (c < MAXPOOLS) c *= 2; }
-  CHECK(hits, "doubling the pool table from INITIAL_POOL_COUNT reaches maxPools exactly");
 }
